@@ -45,3 +45,74 @@ def arg_leaves(p, local, ia):
             elif len(k) > 3 and k[2] == ("v", "Some"):
                 pay[k[4:]] = v
     return ad, pay
+
+
+def check_cli_number(res, E, mprop, name, flag, optional, consequence):
+    """A numeric option: given => the configured value becomes exactly the given number (Some(n) if the setting is
+    optional), absent => it stays.  Returns the number of paths checked."""
+    import z3
+    sl = arg_slice(E, name)
+    if sl is None:
+        res.inconclusive.append("apply_arg_matches: the blocks handling %s were not found" % flag)
+        return 0
+    b2, local, ia, start, end = sl
+    res.functions.append("routinator::config::Config::apply_arg_matches, slice %s..%s handling %s (MIR)" % (start, end, flag))
+    cf = mir.struct_fields("Config", "src/config.rs")
+    ic = cf.index(name)
+    selfp = mir.Opq("&mut Config", "self")
+    base = (("o", selfp.id), "deref", ("f", ic))
+    c_d = z3.Int("configured_%s_disc" % name)
+    c_v = z3.BitVec("configured_%s" % name, 64)
+    E.solver.add(z3.And(c_d >= 0, c_d <= 1))
+
+    def pre(E_, st, frame):
+        if optional:
+            st.mem[base + ("disc",)] = c_d
+            st.mem[base + (("v", "Some"), ("f", 0))] = c_v
+        else:
+            st.mem[base] = c_v
+
+    def widen(x):
+        if mir.is_z(x) and z3.is_bv(x) and x.size() < 64:
+            return z3.ZeroExt(64 - x.size(), x)
+        return x
+    n = 0
+    for i, p in enumerate(E.explore(b2, max_visits=2, arg_values={"_1": {(): selfp}}, pre=pre, max_paths=500)):
+        if p.kind != "return":
+            continue
+        n += 1
+        ad, pay = arg_leaves(p, local, ia)
+        if ad is None:
+            res.inconclusive.append("apply_arg_matches %s slice path %d: the argument was not read" % (flag, i))
+            continue
+        av = widen(pay.get(()))
+        if optional:
+            d1 = p.mem.get(base + ("disc",))
+            v1 = widen(p.mem.get(base + (("v", "Some"), ("f", 0))))
+            if av is None:
+                ok = z3.Implies(ad == 1, z3.BoolVal(False))
+            else:
+                ok = z3.And(z3.Implies(ad == 1, z3.And(d1 == 1, v1 == av)),
+                            z3.Implies(ad == 0, z3.And(d1 == c_d, z3.Implies(c_d == 1, v1 == c_v))))
+        else:
+            v1 = widen(p.mem.get(base))
+            if av is None:
+                ok = z3.Implies(ad == 1, z3.BoolVal(False))
+            else:
+                ok = z3.And(z3.Implies(ad == 1, v1 == av), z3.Implies(ad == 0, v1 == c_v))
+        try:
+            m = E.model(p.cond, z3.Not(ok))
+        except z3.Z3Exception as exc:
+            res.inconclusive.append("apply_arg_matches %s slice path %d: values not comparable (%s)" % (flag, i, exc))
+            continue
+        if m is not None:
+            what = "%s %s: the value in force afterwards is not %s" % (
+                flag, "given" if m.eval(ad, True).as_long() == 1 else "absent",
+                "the given number" if m.eval(ad, True).as_long() == 1 else "the configured one")
+            fn = mprop.write_cex(res, "cli_%s_%d" % (name, i), p, E, what, m)
+            res.violation("mir:cli-%s-not-applied" % name.replace("_", "-"), "the command line's %s is not applied as given (%s): %s" % (flag, what, consequence), fn)
+            break
+    res.distinct += n
+    if n < 2:
+        res.inconclusive.append("vacuity: %s slice has %d returning paths" % (flag, n))
+    return n
